@@ -217,6 +217,10 @@ AlphaPSeg(z) == SetToSeq({Slider(<<t1, p1, "P", a, b, c>>) : t1 \in {"B", "L"}, 
 \* (f) C06: failing multi-segment paths followed by good sliders
 FailingPaths(n) == {p \in TokSeqs(PathToks \ {"C", "Bc"}, n) : p # <<>> /\ ~DecPath(p).ok /\ DecPathFull(p).partial # <<>>}
 GoodPaths(z) == {<<"L", "A">>, <<"B", "A", "Cn">>, <<"P", "A", "Cn">>, <<"B", "A", "B", "Cn">>, <<"C">>}
+\* a smaller variant (fewer tokens) for sequences of three lines
+FailingPathsSmall(n) == {p \in TokSeqs({"B", "L", "O", "A", "bad"}, n) : p # <<>> /\ ~DecPath(p).ok /\ DecPathFull(p).partial # <<>>}
+AlphaResidueSmall(n) == SetToSeq({Slider(p) : p \in FailingPathsSmall(n)}) \o SetToSeq({Slider(p) : p \in GoodPaths(0)})
+                        \o <<Circle(1, 0), Spinner>>
 AlphaResidue(n) == SetToSeq({Slider(p) : p \in FailingPaths(n)}) \o SetToSeq({Slider(p) : p \in GoodPaths(0)})
                 \o <<Circle(1, 0), Spinner, [Slider(<<"L", "A">>) EXCEPT !.repc = "bad"]>>
 
@@ -233,6 +237,7 @@ Alpha == CASE AlphaName = "typesquick" -> AlphaTypesQuick(0)
            [] AlphaName = "pathr"      -> AlphaPathR(AlphaN)
            [] AlphaName = "residue"    -> AlphaResidue(AlphaN)
            [] AlphaName = "pseg"       -> AlphaPSeg(0)
+           [] AlphaName = "residuesmall" -> AlphaResidueSmall(AlphaN)
 
 ASSUME Emit => PrintT("ALPHA " \o ToJson(Alpha))
 
